@@ -188,34 +188,61 @@ def check_corner_set(cs, eps, width):
         return {"ok": False, "key": key, "detail": txt}
 
     first = {}
+    legacy = None      # first failure of the legacy der=0 polynomial branch (accurate=False): deferred, so that
+                       # it cannot hide a failure of the accurate branch or of the derivative weights
     for p in perms:
         for branch, acc in (("accurate", True), ("polynomial", False)):
             w = np.array(weights_tetra(efa, p[0], p[1], p[2], p[3], der=0, accurate=acc))
             nev += len(efs)
             if not np.all(np.isfinite(w)):
                 i = int(np.argmin(np.isfinite(w)))
-                return fail(f"weights_tetra:{branch}:value", f"corners={p} ef={efs[i]!r} der=0 got {w[i]}", i), nev
+                _f = fail(f"weights_tetra:{branch}:value", f"corners={p} ef={efs[i]!r} der=0 got {w[i]}", i)
+                if branch == "polynomial":
+                    _f["key"] += ":der0"
+                    legacy = legacy or _f
+                    break
+                return _f, nev
             bad = np.where((w < lo - 1e-9) | (w > hi + 1e-9))[0]
             if len(bad):
                 i = int(bad[np.argmax(np.maximum(lo[bad] - w[bad], w[bad] - hi[bad]))])
-                return fail(f"weights_tetra:{branch}:value",
+                _f = fail(f"weights_tetra:{branch}:value",
                             f"corners={p} ef={efs[i]!r} der=0 branch={branch}: got {w[i]!r}, exact fraction in "
-                            f"[{lo[i]!r},{hi[i]!r}] ({len(bad)} of {len(efs)} Fermi levels off)", i), nev
+                            f"[{lo[i]!r},{hi[i]!r}] ({len(bad)} of {len(efs)} Fermi levels off)", i)
+                if branch == "polynomial":
+                    _f["key"] += ":der0"
+                    legacy = legacy or _f
+                    break
+                return _f, nev
             if np.any(w < -1e-9) or np.any(w > 1 + 1e-9):
                 i = int(np.argmax(np.abs(w - 0.5)))
-                return fail(f"weights_tetra:{branch}:range", f"corners={p} ef={efs[i]!r} got {w[i]!r}"), nev
+                _f = fail(f"weights_tetra:{branch}:range", f"corners={p} ef={efs[i]!r} got {w[i]!r}")
+                if branch == "polynomial":
+                    _f["key"] += ":der0"
+                    legacy = legacy or _f
+                    break
+                return _f, nev
             d = np.diff(w)
             if np.any(d < -1e-9):
                 i = int(np.argmin(d))
-                return fail(f"weights_tetra:{branch}:monotone",
-                            f"corners={p} ef={efs[i]!r}->{efs[i + 1]!r} weight {w[i]!r}->{w[i + 1]!r}"), nev
+                _f = fail(f"weights_tetra:{branch}:monotone",
+                            f"corners={p} ef={efs[i]!r}->{efs[i + 1]!r} weight {w[i]!r}->{w[i + 1]!r}")
+                if branch == "polynomial":
+                    _f["key"] += ":der0"
+                    legacy = legacy or _f
+                    break
+                return _f, nev
             k = (branch, 0)
             if k not in first:
                 first[k] = w
             elif np.max(np.abs(w - first[k])) > 1e-13:
                 i = int(np.argmax(np.abs(w - first[k])))
-                return fail(f"weights_tetra:{branch}:order_dependence",
-                            f"corners={p} vs {perms[0]} ef={efs[i]!r}: {w[i]!r} vs {first[k][i]!r}"), nev
+                _f = fail(f"weights_tetra:{branch}:order_dependence",
+                            f"corners={p} vs {perms[0]} ef={efs[i]!r}: {w[i]!r} vs {first[k][i]!r}")
+                if branch == "polynomial":
+                    _f["key"] += ":der0"
+                    legacy = legacy or _f
+                    break
+                return _f, nev
         if clean:
             for der in (1, 2, 3):
                 ex, tol, sc = refs[der]
@@ -239,7 +266,7 @@ def check_corner_set(cs, eps, width):
                         i = int(np.argmax(dd))
                         return fail("weights_tetra:polynomial:order_dependence",
                                     f"corners={p} vs {perms[0]} ef={efs[i]!r} der={der}: {w[i]!r} vs {first[k][i]!r}"), nev
-    return None, nev
+    return legacy, nev
 
 
 def run_w4(case):
